@@ -86,3 +86,12 @@ ENTRY["streams"] = ENTRY["streams"] + [dict(s, n_quick=max(1, s.get("n_quick", 1
 ENTRY["monitor_sigs"] = ["clustersim:", "sigagg:published_invalid_signature", "sigagg:partial_publish_on_error",
                          "sigagg:published_other_content", "admit:invalid_partial_reached_subscriber",
                          "admit:wrong_share_accepted", "admit:zero_sig_accepted", "admit:gated_duty_accepted"]
+
+# ... and the consensus (C02: real qbft.Run, agreement monitor) and partial-signature store (C07: real parsigdb,
+# "a share backs one root" monitors) streams: a slip in either breaks C01 through a component the one-validator
+# simulator drives only along honest paths.
+from vlib.props_C02 import QBFT_STREAM as _QS
+from vlib.props_C07 import ENTRY as _E07
+ENTRY["streams"] = ENTRY["streams"] + [dict(_QS, n_quick=20000, seeds_quick=1)] + \
+    [dict(s, n_quick=max(1, s.get("n_quick", 1000) // 2), seeds_quick=1) for s in _E07["streams"]]
+ENTRY["monitor_sigs"] = ENTRY["monitor_sigs"] + ["qbft:disagreement", "parsigdb:rejected_set_exchanged", "parsigdb:equivocation_accepted"]
